@@ -47,6 +47,9 @@ def families(tier):
     # the directory that holds the cache file is itself turned into an output file (or back): the cache write then fails
     q.append({'name': 'A8', 'params': {'hist': 'BB', 'kinds': ['is_dir'], 'swap_dir': 'c', 'swap_file': 'c/x', 'cache': 'c/cache',
                                        'universe': ['c', 'o', 'o/f'], 'no_reference': True}, 'weight': 1})
+    # a previous output is used as a directory by the failing build, and creating that directory fails: nothing gets built,
+    # but the old output had already been moved aside
+    q.append({'name': 'A8', 'params': {'hist': 'BF', 'kinds': ['is_dir'], 'mkdir_fault': 'o/d', 'no_reference': True}, 'weight': 1})
     q.append({'name': 'backups', 'params': {}, 'weight': 1})
     # '... or while the cache file is being written': an OSError at the open / data write / final rename of the cache write
     q.append({'name': 'cachewrite', 'params': {'skel': 'A3', 'hist': 'X', 'kinds': ['is_dir'], 'roles': ['o'], 'targets': ['o/d/g'],
@@ -212,10 +215,25 @@ def harness(eng, fam, P):
                 nb += 1
                 crash = pick_crash(eng, prog)
                 eng.path_info['crash'] = crash
+                fault_hook = None
+                if P.get('mkdir_fault'):
+                    # one of the library's own mkdir calls fails in this build (an over-long name): the build_file call raises
+                    # before anything is built, and the build fails
+                    import errno as _errno
+                    fpath = w.p(P['mkdir_fault'])
+
+                    def fault_hook(op, args, mutating):
+                        if op == 'mkdir' and args[0] == fpath:
+                            raise OSError(_errno.ENAMETOOLONG, 'File name too long (injected)', fpath)
+                    w.env.hooks.append(fault_hook)
                 pre = w.fs.snapshot(w.root)
                 saved = w.save_impl()
                 prev_created = set(d.state.created_dirs) if w.fs.kind(w.cache) == 1 else set()
-                impl, ref = d.build(prog, crash=crash)
+                try:
+                    impl, ref = d.build(prog, crash=crash)
+                finally:
+                    if fault_hook is not None and fault_hook in w.env.hooks:
+                        w.env.hooks.remove(fault_hook)
                 desc.append('F%s->%s' % (crash, impl[0]))
                 sig = (fam, hist)
                 if impl[0] != 'exc':
